@@ -1051,7 +1051,8 @@ fn exec_real(line: &str, t: &[&str], rec: &mut Recorder) {
             if !(class.starts_with("ans:") || class.starts_with("err:")) {
                 rec.fail(idx, format!("lookup completed with neither an answer nor an error: {class}"), "");
             }
-            if elapsed_ms > t_ms + TOL_US / 1000 {
+            // (real sockets, real scheduler: a wider tolerance than in paced mode)
+            if elapsed_ms > t_ms + 100 {
                 let class_f = if s2_got_query && d_ms < t_ms { "deadline-overrun-by-last-round" } else { "" };
                 rec.fail(
                     idx,
@@ -1161,7 +1162,13 @@ fn oracle(c: &Case, o: &RunOut, valid: bool, idx: usize, rec: &mut Recorder) {
         if c.paced {
             if valid && real > t_us + TOL_US && virt > t_us + TOL_US {
                 // class: the round in progress when the deadline passed was started before it
-                let started_before = o.log.iter().any(|e| e.start_us < t_us && e.end_us.map(|x| x > t_us + TOL_US).unwrap_or(false));
+                // (a server request is a unit: the exchange after a reconnect continues it)
+                let request_end = |e: &Ex| match e.end_us {
+                    Some(x) if e.rep == Rep::Rst => o.log.iter().find(|y| y.srv == e.srv && y.start_us == x).and_then(|y| y.end_us).unwrap_or(x),
+                    Some(x) => x,
+                    None => u64::MAX,
+                };
+                let started_before = o.log.iter().any(|e| e.start_us < t_us && request_end(e) > t_us + TOL_US);
                 let class = if started_before { "deadline-overrun-by-last-round" } else { "" };
                 rec.fail(
                     idx,
@@ -1638,5 +1645,5 @@ pub fn run(o: &Opts, rec: &mut Recorder) {
     run_paced(gen_b(o), rec);
     eprintln!("c18: +paced {} cases {:?}", rec.cases.len(), t0.elapsed());
     exec("real 300 240", rec);
-    exec("real 300 60", rec);
+    exec("real 300 180", rec);
 }
